@@ -161,6 +161,7 @@ def setup(c):
                     'cshift': tools.cshift, 'Range.centerdc_gen': psd.Range.centerdc_gen})
     c.extra['abstract_states'] = []
     c.extra['transitions_seen'] = []
+    reach.cover(c, {'Spectrum.get_converted_psd': psd.Spectrum.get_converted_psd, 'Spectrum._setSides': psd.Spectrum._setSides})
 
 
 def all_paths(symbols, maxlen):
